@@ -26,6 +26,7 @@ def main():
     res_path = VERIF / "seeded" / "RESULTS.json"
     results = json.loads(res_path.read_text()) if res_path.exists() else {}
     dirs = sorted(d for d in (VERIF / "seeded").iterdir() if d.is_dir() and (d / "patch.diff").exists())
+    touched = set()
     for d in dirs:
         meta = json.loads((d / "meta.json").read_text())
         pid = meta["property"]
@@ -33,6 +34,7 @@ def main():
             continue
         if not (VERIF / "harness" / "props" / f"{pid.lower()}.py").exists():
             continue
+        touched.add(d.name)
         subprocess.run(["git", "-C", tree, "checkout", "-q", "--", "."], check=True)
         ap_ = subprocess.run(["git", "-C", tree, "apply", str(d / "patch.diff")], capture_output=True, text=True)
         if ap_.returncode != 0:
@@ -52,8 +54,15 @@ def main():
                            "line": vio[0] if vio else out.strip().splitlines()[-1:] , "wall_s": round(time.time() - t0, 1), "tier": a.tier}
         print(d.name, results[d.name], flush=True)
         # restore generated files that the mutated tree may have changed
-        subprocess.run(["git", "-C", str(VERIF), "checkout", "-q", "--", "coq/Gen"], check=False)
-    res_path.write_text(json.dumps(results, indent=1))
+        gen = [str(g.relative_to(VERIF)) for g in (VERIF / "coq" / "Gen").glob(f"{pid}_*.v")]
+        if gen:
+            subprocess.run(["git", "-C", str(VERIF), "checkout", "-q", "--", *gen], check=False)
+    import fcntl
+    with open(VERIF / "seeded" / ".lock", "w") as lk:      # several properties may run side by side (one worktree each)
+        fcntl.flock(lk, fcntl.LOCK_EX)
+        merged = json.loads(res_path.read_text()) if res_path.exists() else {}
+        merged.update({k: v for k, v in results.items() if k in touched})
+        res_path.write_text(json.dumps(merged, indent=1, sort_keys=True))
 
 
 if __name__ == "__main__":
